@@ -27,9 +27,19 @@ NSHARDS = 16
 HERE = os.path.dirname(os.path.abspath(__file__))
 
 
+STANDINS = os.path.join(os.path.dirname(HERE), "standins")
+
+
 def plan(tier, seed):
     n = 4 if tier == "quick" else 90
-    return [{"name": "s%d" % i, "seed": seed, "shard": i, "n_pairs": n} for i in range(NSHARDS)]
+    # odd shards have the MOSEK stand-in importable (B may use wrapper="mosek"); even shards do not, so that the
+    # library's own default-solver selection (no solver named) is exercised as in the test environment
+    return [{"name": "s%d" % i, "seed": seed, "shard": i, "n_pairs": n, "extra_path": [STANDINS] if i % 2 else None}
+            for i in range(NSHARDS)]
+
+
+def _has_standin():
+    return any(p.rstrip("/").endswith("standins") for p in sys.path)
 
 
 def fresh_dump(prog, cfg, pre_orphans=None):
@@ -40,7 +50,7 @@ def fresh_dump(prog, cfg, pre_orphans=None):
         with open(inp, "w") as f:
             json.dump({"program": prog, "config": cfg, "pre_orphans": pre_orphans}, f)
         r = subprocess.run([sys.executable, "-B", os.path.join(os.path.dirname(HERE), "fresh.py"), inp, outp],
-                           env=pvmain.shard_env(), capture_output=True, text=True, timeout=600)
+                           env=pvmain.shard_env([STANDINS] if _has_standin() else None), capture_output=True, text=True, timeout=600)
         if r.returncode != 0 or not os.path.exists(outp):
             return None, (r.stderr or "")[-400:]
         with open(outp) as f:
@@ -80,7 +90,10 @@ def history_item(rng, counters):
                     kw = {"verbose": rng.choice([0, 1]), "solver": "CLARABEL",
                           "return_primal_or_dual": rng.choice(["dual", "primal"])}
                     if kind == "scs_default":
-                        kw.pop("solver")
+                        if _has_standin():
+                            kw["solver"] = "SCS"
+                        else:
+                            kw.pop("solver")
                     if kind == "verbose2":
                         kw["verbose"] = 2
                     if rng.random() < 0.15:
@@ -179,7 +192,10 @@ def run_shard(spec):
         B = small_B(rng)
         cfg = {"wrapper": "cvxpy", "solver": "CLARABEL", "verbose": 0, "mode": rng.choice(["dual", "primal"]),
                "eval_null": True}
-        if rng.random() < 0.2:
+        if _has_standin():
+            if rng.random() < 0.4:
+                cfg["wrapper"] = "mosek"    # MOSEK back-end through the stand-in: the recorded Task calls are compared too
+        elif rng.random() < 0.3:
             cfg.pop("solver")           # library default (SCS here): the default must not depend on history either
         fresh, err = fresh_dump(B, cfg)
         if fresh is None:
